@@ -11,6 +11,7 @@ func verifNative() bool                                          // false under 
 func verifStr(label string) string                               // arbitrary one-line string (opaque atom)
 func verifText(label string) string                              // arbitrary non-empty one-line string
 func verifName(label string) string                              // arbitrary single valid path element
+func verifLongName(label string) string                          // as verifName; natively longer than 255 bytes (ENAMETOOLONG)
 func verifBytes(label string, n int) string                      // n arbitrary bytes
 func verifUint(label string) uint                                // arbitrary 64-bit value
 func verifBool(label string) bool                                // arbitrary boolean (symbolic)
@@ -24,4 +25,5 @@ func verifObserve(label, s string)                               // value compar
 func verifNote(s string)                                         // free-text description of the case (evidence samples)
 func verifRow(prefix string, kind int, depth uint, text string) string // abstract Markdown row
 func verifRegister(name string, f func())                        // entry registry (used by the native replay only)
+func verifFSCalls() []string                                     // byte-level FS recorder: paths handed to mutating os calls so far
 func verifQuiesce() int                                          // lets all goroutines run; returns how many are left
